@@ -140,7 +140,8 @@ class Oracle:
             if c in rd["cols"]:
                 i = self.idx[rd["sample"]]
                 bit = (assign >> hp[i][Bc[r]]) & 1
-                terms.append(z3.If(self.allele(r, c) == bit, z3.IntVal(0), self.sym("w_%d_%d" % (r, c))))
+                fw = (rd.get("weights") or {}).get(str(c))
+                terms.append(z3.If(self.allele(r, c) == bit, z3.IntVal(0), z3.IntVal(fw) if fw is not None else self.sym("w_%d_%d" % (r, c))))
         return z3.Sum(terms) if terms else z3.IntVal(0)
 
     def col_costs(self, c, t, B):
